@@ -17,6 +17,9 @@ RULE = ("trace level: exact correspondence of every run with the Coq models; dif
 ASSUMPTIONS = ["an entry with a Path but no/invalid date is 'malformed' for the purpose of this check: its own line/offer may appear, the others' must be unchanged"]
 
 
+RULE += ' Since round 8: neighbours with percent-encoded non-UTF-8 Path= values and names carrying str.format / % directives.'
+
+
 def gen(rng, n):
     pairs, metas = [], []
     for i in range(n):
@@ -35,7 +38,7 @@ def gen(rng, n):
         nodes_bad, kinds = [], []
         for k in range(rng.randint(1, 4)):
             mk = rng.choice(scen.MALFORMED + ['dotdot_trashinfo', 'undated_same_path', 'baddate_same_path', 'tz_date', 'tz_date', 'suffix_twin', 'suffix_twin',
-                                              'link_info', 'link_info', 'link_other'])
+                                              'link_info', 'link_info', 'link_other', 'pct_nonutf8', 'brace_name', 'brace_name'])
             kinds.append(mk)
             if mk in ('link_info', 'link_other'):
                 # things in info/ that are links: to nowhere, to themselves, to a directory - under a .trashinfo name (with a payload) or not
@@ -59,6 +62,15 @@ def gen(rng, n):
                 # must not touch files/<name>, which belongs to the well-formed entry
                 g = rng.choice(good)
                 nodes_bad.append(['f', td + '/info/' + g['name'] + '.trashinfo.trashinfo', scen.TI % ('/home/u/twin%d' % k, '2001-01-01T00:00:00')])
+            elif mk == 'pct_nonutf8':
+                # percent-encoded bytes that are not UTF-8 (a Latin-1 name written by another implementation)
+                nodes_bad += [['f', td + '/info/pct%d.trashinfo' % k, '[Trash Info]\nPath=%s\nDeletionDate=2001-01-01T00:00:00\n' %
+                               rng.choice(['/home/u/caf%E9', 'caf%E9.txt', '/home/u/%FF%FE', '/home/u/a%C3'])], ['f', td + '/files/pct%d' % k, 'p']]
+            elif mk == 'brace_name':
+                # an unparsable info file whose NAME carries characters that mean something to str.format / % (it ends up in a message)
+                nm = rng.choice(['br{}%d', 'br{0}%d', 'br{x}%d', 'br%%s%d', 'br{%d', 'br%%(a)s%d']) % k
+                nodes_bad += [['f', td + '/info/' + nm + '.trashinfo', rng.choice(['[Trash Info]\nDeletionDate=2001-01-01T00:00:00\n', '', 'Path'])],
+                              ['f', td + '/files/' + nm, 'p']]
             elif mk == 'dotdot_trashinfo':
                 nodes_bad.append(['f', td + '/info/' + rng.choice(['..trashinfo', '...trashinfo']), scen.TI % ('/home/u/dd', '2001-01-01T00:00:00')])
             else:
